@@ -447,6 +447,26 @@ func ops(m *model, k int) (out []struct {
 		drop("copy_drop_then_rename_to_another_name", fmt.Sprintf("ALTER TABLE `new_u` RENAME TO `u_v%d`", k),
 			&table{Name: fmt.Sprintf("u_v%d", k), Cols: append([]col(nil), u.Cols...), Idx: map[string]string{}})
 	}
+	// one of two destructive statements is silenced by a statement-level atlas:nolint directive: the
+	// other one is still an error.
+	if t != nil && t.col("b") != nil && m.table("u") != nil {
+		n := m.clone()
+		nt := n.table("t")
+		for i, c := range nt.Cols {
+			if c.Name == "b" {
+				nt.Cols = append(nt.Cols[:i], nt.Cols[i+1:]...)
+				break
+			}
+		}
+		for i, x := range n.Tables {
+			if x.Name == "u" {
+				n.Tables = append(n.Tables[:i], n.Tables[i+1:]...)
+				break
+			}
+		}
+		add(step{Op: "drop_column_nolint_then_drop_table", SQL: []string{"-- atlas:nolint DS103\nALTER TABLE `t` DROP COLUMN `b`", "DROP TABLE `u`"},
+			Expect: []expect{{"DS102", "u", []string{"DROP TABLE `u`"}}}}, n)
+	}
 	// temporary table within one file
 	add(step{Op: "temp_table", SQL: []string{fmt.Sprintf("CREATE TABLE `tmpt%d` (`id` integer)", k), fmt.Sprintf("DROP TABLE `tmpt%d`", k)}}, m.clone())
 	return
@@ -682,7 +702,7 @@ func Run(r *report.Run) {
 	if r.Tier == "thorough" {
 		depth = 3
 	}
-	r.Rule = fmt.Sprintf("BFS to depth %d over schema evolutions of a two-table SQLite schema (add table, add nullable column, add index, drop column by ALTER, drop column by table rebuild, drop column (by ALTER / by rebuild) and add it back in the same file, drop table, drop table and create it again in the same file, change type by rebuild, add check by rebuild, drop VIRTUAL column, temporary table / temporary column inside one file, a rebuild directly followed by DROP TABLE, two rebuilds in one file, files of more than 10 statements ending in DROP TABLE / containing a column-dropping rebuild); every history becomes a migration directory in which the last file is written by hand and, where the evolution can be expressed as a desired schema, also by the real `atlas migrate diff` (earlier files hand-written); x --latest N for every N<=depth (and, for --latest 1, the hand-written file saved with CR LF line endings below 200 comment lines); the line number atlas prints for each diagnostic must be the line its byte position is on; the real `atlas migrate lint` runs against a real SQLite dev database; states de-duplicated by the canonical schema model for expansion; non-trivial = every directory; distinct = (history, producer, N)", depth)
+	r.Rule = fmt.Sprintf("BFS to depth %d over schema evolutions of a two-table SQLite schema (add table, add nullable column, add index, drop column by ALTER, drop column by table rebuild, drop column (by ALTER / by rebuild) and add it back in the same file, drop table, drop table and create it again in the same file, change type by rebuild, add check by rebuild, drop VIRTUAL column, temporary table / temporary column inside one file, a rebuild directly followed by DROP TABLE, two rebuilds in one file, two destructive statements of which one is silenced by atlas:nolint, files of more than 10 statements ending in DROP TABLE / containing a column-dropping rebuild); every history becomes a migration directory in which the last file is written by hand and, where the evolution can be expressed as a desired schema, also by the real `atlas migrate diff` (earlier files hand-written); x --latest N for every N<=depth (and, for --latest 1, the hand-written file saved with CR LF line endings below 200 comment lines); the line number atlas prints for each diagnostic must be the line its byte position is on; the real `atlas migrate lint` runs against a real SQLite dev database; states de-duplicated by the canonical schema model for expansion; non-trivial = every directory; distinct = (history, producer, N)", depth)
 	r.Assumptions = []string{
 		"a file is destructive iff it removes a table or a non-virtual column that existed before the file (reference model of the evolution)",
 		"for a table rebuild the diagnostic position is the first statement of the CREATE/INSERT/DROP/RENAME group, as sqlitecheck documents",
